@@ -280,6 +280,29 @@ def replay(rep, verbose=False):
                 sigs.add(sig)
                 if verbose:
                     print("FAILS:", nm, "--", what)
+        # new points: at, next to and away from every threshold (all combinations over the features), real Tree.predict vs the leaf boxes
+        t = mdl.tree_
+        if t.n_nodes > 1:
+            import itertools as _it
+            per_f = []
+            for f in range(d):
+                vals = {float(X[:, f].min()) - 1.0, float(X[:, f].max()) + 1.0}
+                for node in range(t.n_nodes):
+                    if t.children_left[node] != -1 and t.features[node] == f:
+                        thr = float(t.thresholds[node])
+                        vals.update([thr, np.nextafter(thr, np.inf), np.nextafter(thr, -np.inf), thr + 1e-9, thr - 1e-9,
+                                     thr + 1e-6 * (1 + abs(thr)), thr - 1e-6 * (1 + abs(thr)), thr + 0.25, thr - 0.25])
+                per_f.append(sorted(vals))
+            Q = np.array(list(_it.islice(_it.product(*per_f), 20000)), dtype=float)
+            got = np.asarray(t.predict(Q))
+            boxes = _boxes(t)
+            for qi, q in enumerate(Q):
+                hit = [leaf for leaf, cons in boxes.items() if all((q[f] <= thr) == (op == "le") for f, op, thr in cons)]
+                if len(hit) != 1 or t.target[hit[0]] != got[qi]:
+                    sigs.add(f"{PROP}:routing:new-point")
+                    if verbose:
+                        print("FAILS: new point", q.tolist(), "predict", int(got[qi]), "leaf boxes containing it", hit, "targets", [int(t.target[h]) for h in hit])
+                    break
         if verbose:
             print("X", X.tolist(), "hp", rep["hp"], "tree thresholds", mdl.tree_.thresholds, "labels_", mdl.labels_.tolist())
     finally:
@@ -336,6 +359,8 @@ def _grids(tier):
         "n3d2": [[0.0, 2.0], [1.0, 0.0], [2.0, 1.0]],
         "n4d2": [[0.0, 1.0], [1.0, 3.0], [2.0, 0.0], [3.0, 2.0]],
         "n4const": [[0.0, 5.0], [1.0, 5.0], [2.0, 5.0], [3.0, 5.0]],
+        "n4const0": [[5.0, 0.0], [5.0, 2.0], [5.0, 1.0], [5.0, 3.0]],          # a constant column BEFORE the informative one
+        "n3const1d3": [[0.0, 7.0, 1.0], [2.0, 7.0, 0.0], [1.0, 7.0, 2.0]],     # ... between two informative ones
     }
     hps = []
     for mc in (1, 2, 3):
@@ -354,6 +379,9 @@ def _grids(tier):
                 picks.append(dict(base, **{k: v}))
         picks += [dict(base, min_samples_split=4, min_samples_leaf=2), dict(base, max_depth=1, max_leaves=3, max_clusters=2),
                   dict(base, min_samples_split=3, max_depth=2, max_clusters=2), dict(base, min_samples_split=2, min_samples_leaf=2)]
+        for xn in ("n4const0", "n3const1d3"):
+            plan.append((xn, base))
+            plan.append((xn, dict(base, max_features=1)))
         for xn in ("n3", "n3tie", "n4", "n4d2"):
             for hp in picks:
                 if xn in ("n4", "n4d2") and hp.get("max_clusters", 3) == 3 and hp.get("max_leaves") is None and hp.get("max_depth") is None and hp["min_samples_split"] == 2 and xn == "n4d2":
